@@ -42,150 +42,188 @@ class _Self:
         self.network = _Net(p)
 
 
+def expand_interpreted(ctx, net, wildcard="*", me=None, want_me=False):
+    """SigmaCIDRExpression.expand interpreted (sa.tabulate, Proxy; the stdlib ipaddress module is the only library object)."""
+    import ipaddress
+    from ..tabulate import Proxy, call_method
+    prog = ctx.prog
+    cq = EXP.rsplit(".", 1)[0]
+    env = {"IPv4Network": ipaddress.IPv4Network, "IPv6Network": ipaddress.IPv6Network, "ipaddress": ipaddress, "cast": lambda t, v: v}
+    IK = {"max_steps": 400000, "behaviours": (ValueError,)}  # subnets() refuses a difference that leaves the address width
+    if me is None:
+        me = Proxy(prog, cq, env, {"network": net, "cidr": str(net), "source": None}, interp_kwargs=IK)
+    out = list(call_method(prog, cq, "expand", me, env, wildcard, interp_kwargs=IK))
+    return (out, me) if want_me else out
+
+
 def r1_alignment(ctx) -> None:
+    import ipaddress
+    from ..tabulate import Raised
     r, prog = ctx.r, ctx.prog
-    r.rule("C18.R1", "alignment arithmetic of expand(): for every prefix length the added bits are in [0, group size) and reach the next group boundary, subnets() gets exactly that difference, the wildcard group is prefix // 8 of the *subnet*, the branch table is 0 → wildcard, 1..3 → that many octets + '.' + wildcard, 4 → full address; one result path")
+    r.rule("C18.R1", "alignment arithmetic of expand(): interpreted for every prefix length of both families (/0…/32 on two IPv4 bases, /0…/128 on two IPv6 bases) — the network is split into the sub-networks that end at the next group boundary (8 bits / 4 bits), each written as its static leading groups followed by the wildcard (the whole address for a full-length prefix, the bare wildcard for /0)")
     f = prog.func(EXP)
-    top = [n for n in f.node.body if isinstance(n, ast.If) and "IPv4Network" in unparse(n.test)]
-    if len(top) != 1 or not top[0].orelse:
-        raise AnalysisError(f"{EXP}: IPv4/IPv6 branch structure not recognised")
-    for fam, body, mod, maxp in (("IPv4", top[0].body, 8, 32), ("IPv6", top[0].orelse, 4, 128)):
-        assigns = {unparse(s.targets[0]): s.value for s in body if isinstance(s, ast.Assign)}
-        loops = [s for s in body if isinstance(s, ast.For)]
-        loc = f"{f.module.relpath}:{body[0].lineno}"
-        if len(loops) != 1:
-            r.violation("C18.R1", EXP, f"{fam}: {len(loops)} loops", "exactly one loop over the aligned subnets expected", loc)
-            continue
-        lp = loops[0]
-        it = lp.iter
-        if not (isinstance(it, ast.Call) and call_name(it) == "self.network.subnets" and (len(it.args) == 1 or any(k.arg == "prefixlen_diff" for k in it.keywords))):
-            r.violation("C18.R1", EXP, f"{fam}: {short(it, 80)}", "the loop must iterate self.network.subnets(<difference to the next boundary>)", loc)
-            continue
-        diff_e = it.args[0] if it.args else next(k.value for k in it.keywords if k.arg == "prefixlen_diff")
-        bad = None
-        for p in range(0, maxp + 1):
-            env: dict[str, Any] = {"self": _Self(p)}
-            try:
-                for name, val in assigns.items():
-                    if name.isidentifier():
-                        env[name] = _eval(val, env)
-                d = _eval(diff_e, env)
-            except Exception as e:
-                raise AnalysisError(f"{EXP}: {fam} alignment expressions not evaluable: {e}")
-            if not (isinstance(d, int) and 0 <= d < mod and (p + d) % mod == 0):
-                bad = (p, d)
-                break
-        if bad:
-            r.violation("C18.R1", EXP, f"{fam}: subnets({unparse(diff_e)}) with " + ", ".join(f"{k} = {unparse(v)}" for k, v in assigns.items() if k.isidentifier()),
-                        f"for prefix length /{bad[0]} the enumeration adds {bad[1]} bits: the subnets do not end on a {mod}-bit group boundary (or are needlessly many), so a pattern cut at the group boundary matches addresses outside the network or patterns become redundant", loc)
+    for fam, bases, maxp in (("IPv4", ("10.77.130.201", "255.255.255.255"), 32), ("IPv6", ("2001:db8:a5f1:9c3b:7e2d:4f60:1b8a:c9d7", "fe80::1"), 128)):
+        bad = []
+        n = 0
+        for base in bases:
+            for plen in range(0, maxp + 1):
+                net = ipaddress.ip_network((base, plen), strict=False)
+                n += 1
+                try:
+                    got = expand_interpreted(ctx, net)
+                except Raised as ex:
+                    bad.append(f"{net}: raises {ex}")
+                    continue
+                want = _reference_expand(net)
+                if got != want:
+                    miss = [x for x in want if x not in got]
+                    extra = [x for x in got if x not in want]
+                    bad.append(f"{net}: {len(got)} pattern(s) {got[:3]}{'…' if len(got) > 3 else ''} instead of {len(want)} {want[:3]}{'…' if len(want) > 3 else ''}" + (f"; lost {miss[:2]}" if miss else "") + (f"; added {extra[:2]}" if extra else ""))
+        if not bad:
+            r.ok("C18.R1", EXP, f"{fam}: {n} networks (every prefix length on {len(bases)} base addresses) expand to the sub-networks of the next group boundary, written as static groups + wildcard", f.loc)
         else:
-            r.ok("C18.R1", EXP, f"{fam}: difference {unparse(diff_e)} evaluated for /0../{maxp}: 0 ≤ d < {mod} and (p+d) mod {mod} = 0", loc)
-        if fam == "IPv4":
-            la = {unparse(s.targets[0]): s.value for s in lp.body if isinstance(s, ast.Assign)}
-            var = unparse(lp.target)
-            wg = la.get("wildcard_group")
-            if wg is not None and unparse(wg) == f"{var}.prefixlen // 8":
-                r.ok("C18.R1", EXP, f"wildcard_group = {unparse(wg)}", loc)
-            else:
-                r.violation("C18.R1", EXP, f"wildcard_group = {unparse(wg) if wg is not None else None}", "the number of fixed octets must be the subnet's prefix length // 8", loc)
-            sg = la.get("subnet_groups")
-            if sg is not None and unparse(sg).replace('"', "'") == f"str({var}.network_address).split('.')":
-                r.ok("C18.R1", EXP, "octets taken from the subnet's network address", loc)
-            else:
-                r.violation("C18.R1", EXP, f"subnet_groups = {unparse(sg) if sg is not None else None}", "octets must come from str(subnet.network_address).split('.')", loc)
-            table = []
-            for n in ast.walk(lp):
-                if isinstance(n, ast.Call) and call_name(n) == "patterns.append":
-                    gs = [(g.replace('"', "'"), p) for g, p in atomic_guards(guards_at(prog, f, n)) if "wildcard_group" in g]
-                    table.append((tuple(gs), unparse(n.args[0]).replace('"', "'")))
-            want = [
-                ((("wildcard_group == 0", True),), "wildcard"),
-                ((("wildcard_group == 0", False), ("wildcard_group < 4", True)), "'.'.join(subnet_groups[:wildcard_group]) + '.' + wildcard"),
-                ((("wildcard_group == 0", False), ("wildcard_group < 4", False)), f"str({var}.network_address)"),
-            ]
-            if table == want:
-                r.ok("C18.R1", EXP, "branch table: 0 → wildcard; 1..3 → leading octets + '.' + wildcard; 4 → full address", loc)
-            else:
-                r.violation("C18.R1", EXP, f"branch table {table}", f"expected {want}", loc)
-    rets = [x for x in walk_no_nested(f.node) if isinstance(x, ast.Return)]
-    if len(rets) == 1 and unparse(rets[0].value) == "patterns" and rets[0] is f.node.body[-1]:
-        r.ok("C18.R1", EXP, "single result path: return patterns", f.loc)
+            r.violation("C18.R1", EXP, f"{fam}: {bad[0]}", f"{len(bad)} of {n} prefix lengths deviate: the difference to the next group boundary, the number of static groups or the branch table (no static group → wildcard; all groups static → the address itself) is wrong — the patterns match addresses outside the network or miss addresses inside it", f.loc)
+    # the same value expanded for two backends (two wildcard strings): each call answers for its own argument
+    net = ipaddress.ip_network("10.2.0.0/15")
+    try:
+        first, me = expand_interpreted(ctx, net, "*", want_me=True)
+        second = expand_interpreted(ctx, net, "%", me=me)
+        third = expand_interpreted(ctx, net, "*", me=me)
+        okw = second == _reference_expand(net, "%") and third == first == _reference_expand(net, "*")
+        detail = f"'*' → {first}, then '%' → {second}, then '*' → {third}"
+    except Raised as ex:
+        okw, detail = False, f"raises {ex}"
+    if okw:
+        r.ok("C18.R1", EXP, "one result path: a second expansion of the same value with another wildcard string is computed for that string", f.loc)
     else:
-        for x in rets:
-            if x is not f.node.body[-1]:
-                r.violation("C18.R1", EXP, stmt_head(x), "an additional result path bypasses the subnet enumeration (e.g. listing hosts(), which omits the network address below /127): addresses of the network are then matched by no pattern", f"{f.module.relpath}:{x.lineno}")
-    for c in (x for x in walk_no_nested(f.node) if isinstance(x, ast.Call) and call_name(x).endswith(".hosts")):
-        r.violation("C18.R1", EXP, short(c, 80), "hosts() omits the network (and, for IPv4, broadcast) address: they are members of the CIDR network and must be matched", f"{f.module.relpath}:{c.lineno}")
-    r.floor("C18.R1", 6)
+        r.violation("C18.R1", EXP, f"expand() twice on one value: {detail}", "the result of an earlier call is handed out again: the patterns carry the wildcard string of another backend", f.loc)
+    r.floor("C18.R1", 3)
 
 
 def r2_prefix_scan(ctx) -> None:
     r, prog = ctx.r, ctx.prog
     r.rule("C18.R2", "a character-wise common-prefix scan over two address texts handles operands of unequal length (compressed IPv6 texts of the first and last address differ in length when zero compression swallows the low group)")
     f = prog.func(EXP)
-    n = 0
-    for lp in (x for x in walk_no_nested(f.node) if isinstance(x, ast.For)):
-        it = unparse(lp.iter)
-        if it.startswith("range(len(") and any(isinstance(c, ast.Compare) and "[i]" in unparse(c) for c in ast.walk(lp)):
-            n += 1
-            a = it[len("range(len("):-2]
-            cmp_ = next(c for c in ast.walk(lp) if isinstance(c, ast.Compare) and "[i]" in unparse(c))
-            other = [unparse(x.value) for x in ast.walk(cmp_) if isinstance(x, ast.Subscript) and unparse(x.value) != a]
-            loc = f"{f.module.relpath}:{lp.lineno}"
-            src = unparse(f.node)
-            guarded = other and (f"len({a}) == len({other[0]})" in src or f"len({a}) != len({other[0]})" in src or "zip(" in it or ".exploded" in src)
-            if not guarded:
-                # or: the "no difference found" outcome is told apart from the single-address network by the prefix length —
-                # every pattern appended without the wildcard after the scan is guarded by a prefix-length test
-                plain = [c for c in walk_no_nested(f.node) if isinstance(c, ast.Call) and call_name(c) == "patterns.append"
-                         and c.lineno > lp.end_lineno and "wildcard" not in unparse(c)
-                         and any(isinstance(anc, ast.For) and lp in ast.walk(anc) for anc in prog.ancestors(c))]
-                def _pl_guard(c):
-                    for t, pol in atomic_guards(guards_at(prog, f, c)):
-                        tt = t.replace(" ", "")
-                        if "prefixlen" in tt and ((("<128" in tt or "!=128" in tt) and not pol) or (("==128" in tt or ">=128" in tt) and pol)):
-                            return True
-                    return False
-                if plain and all(_pl_guard(c) for c in plain):
-                    guarded = True
-            if guarded:
-                r.ok("C18.R2", EXP, f"scan over {a}/{other[0] if other else '?'} guards the lengths", loc)
-            else:
-                r.violation("C18.R2", EXP, f"for i in range(len({a})): if {unparse(cmp_)}",
-                            f"the scan runs over len({a}) characters only; when {other[0] if other else 'the other text'} is longer (e.g. '1234::' vs '1234::f' for 1234::/124) no difference is found and the network collapses to a single-address pattern", loc)
+    # expand() interpreted on networks whose first address is printed shorter than its last one
+    import ipaddress
+    from ..tabulate import Raised
+    samples = ["1234::/124", "1234::/125", "fe80::/64", "fe80::/10", "::/0", "::/1", "::1/128", "1::/16", "2001:db8::/32", "2001:db8:0:0:1::/80", "ff00::/8", "::ffff:0:0/96"]
+    bad = []
+    for cidr in samples:
+        net = ipaddress.ip_network(cidr)
+        try:
+            got = expand_interpreted(ctx, net)
+        except Raised as ex:
+            bad.append(f"{cidr}: raises {ex}")
+            continue
+        want = _reference_expand(net)
+        if got != want:
+            bad.append(f"{cidr} (first address {net.network_address}, last {net.broadcast_address}): {got[:3]} instead of {want[:3]}")
+    if not bad:
+        r.ok("C18.R2", EXP, f"{len(samples)} zero-compressed networks (first address printed shorter than the last) expand to prefix patterns with the wildcard behind the common text", f.loc)
+    else:
+        r.violation("C18.R2", EXP, f"common-prefix scan: {bad[0]}",
+                    f"{len(bad)} of {len(samples)} networks: the scan runs over the characters of the first address only; when the last address is longer (e.g. '1234::' vs '1234::f' for 1234::/124) no difference is found and the network collapses to a single-address pattern (or the scan runs past the shorter text)", f.loc)
     r.floor("C18.R2", 1)
+
+
+def cidr_conversion_table(ctx) -> dict[str, list[str]]:
+    """TextQueryBackend.convert_condition_field_eq_val_cidr interpreted (sa.tabulate, Proxy) with and without a native
+    template, under every enclosing operator. → {'native': [...], 'expansion': [...], 'grouping': [...]} deviations; cached."""
+    if getattr(ctx, "_c18_cidr", None) is not None:
+        return ctx._c18_cidr
+    import ipaddress
+    import types as _types
+    from ..tabulate import Proxy, call_method, Raised
+    prog = ctx.prog
+    TQ = "sigma.conversion.base.TextQueryBackend"
+
+    class SigmaCIDRExpression:
+        def __init__(self, text, patterns):
+            self.cidr, self.network, self._p = text, ipaddress.ip_network(text, strict=False), patterns
+        def expand(self, wildcard="*"): return list(self._p)
+        def __str__(self): return self.cidr
+
+    class SigmaString:
+        def __init__(self, t): self.t = t
+
+    class ConditionFieldEqualsValueExpression:
+        def __init__(self, field, value, *a): self.field, self.value = field, value
+
+    class ConditionOR:
+        def __init__(self, args, source=None): self.args, self.source = list(args), source
+
+    class ConditionAND: pass
+    class ConditionNOT: pass
+    class DeferredQueryExpression: pass
+
+    env = {k: v for k, v in locals().items() if isinstance(v, type) and k[:1].isupper()}
+    env["cast"] = lambda t, v: v
+    IK = {"behaviours": (NotImplementedError, TypeError), "max_steps": 8000}
+    out: dict[str, list[str]] = {"native": [], "expansion": [], "grouping": []}
+    # native template
+    cond = _types.SimpleNamespace(field="fld", value=SigmaCIDRExpression("192.168.0.0/255.255.252.0", ["x"]), source="src", parent_chain_condition_classes=lambda: [])
+    me = Proxy(prog, TQ, env, {"cidr_expression": "{field}|{value}|{network}|{prefixlen}|{netmask}", "escape_and_quote_field": lambda f_: f"<{f_}>"}, interp_kwargs=IK)
+    try:
+        got = call_method(prog, TQ, "convert_condition_field_eq_val_cidr", me, env, cond, "state", interp_kwargs=IK)
+    except Raised as ex:
+        got = f"<raises {ex}>"
+    if got not in ("fld|192.168.0.0/22|192.168.0.0|22|255.255.252.0", "<fld>|192.168.0.0/22|192.168.0.0|22|255.255.252.0"):
+        out["native"].append(f"value written 192.168.0.0/255.255.252.0 with template '{{field}}|{{value}}|{{network}}|{{prefixlen}}|{{netmask}}' gives {got!r} instead of 'fld|192.168.0.0/22|192.168.0.0|22|255.255.252.0'")
+    # expansion
+    for npat in (1, 2, 3):
+        for enclosing, tighter in (([], False), ([ConditionOR], False), ([ConditionAND], True), ([ConditionNOT], True), ([ConditionOR, ConditionAND], False), ([ConditionAND, ConditionOR], True)):
+            for in_expr in (False, True):
+                for deferred in (False, True):
+                    seen: list = []
+                    pats = ["a*", "ab*", "b*"][:npat]  # a pattern may continue the text of its predecessor: all of them are alternatives
+                    cond = _types.SimpleNamespace(field="fld", value=SigmaCIDRExpression("10.0.0.0/8", pats), source="src", parent_chain_condition_classes=lambda e=enclosing: list(e))
+                    dq = DeferredQueryExpression()
+                    def convert_condition(c, st, _s=seen, _d=deferred, _dq=dq):
+                        _s.append(c)
+                        return _dq if _d else "A or B"
+                    me = Proxy(prog, TQ, env, {"cidr_expression": None, "precedence": (ConditionNOT, ConditionAND, ConditionOR), "group_expression": "({expr})", "convert_condition": convert_condition,
+                                               "decide_convert_condition_as_in_expression": lambda c, st, _i=in_expr: _i, "escape_and_quote_field": lambda f_: f_}, interp_kwargs=IK)
+                    case = f"{npat} pattern(s), enclosing {[c.__name__ for c in enclosing]}, in-expression={in_expr}, deferred={deferred}"
+                    try:
+                        got = call_method(prog, TQ, "convert_condition_field_eq_val_cidr", me, env, cond, "state", interp_kwargs=IK)
+                    except Raised as ex:
+                        out["expansion"].append(f"{case}: raises {ex}")
+                        continue
+                    if not (len(seen) == 1 and isinstance(seen[0], ConditionOR) and [(type(a), a.field, getattr(a.value, "t", None)) for a in seen[0].args] == [(ConditionFieldEqualsValueExpression, "fld", p_) for p_ in pats]):
+                        out["expansion"].append(f"{case}: converts {[(type(a).__name__, getattr(a, 'field', None), getattr(getattr(a, 'value', None), 't', None)) for a in getattr(seen[0], 'args', [])] if seen else seen} instead of one OR over fld = pattern for each of {pats}")
+                        continue
+                    want = dq if deferred else ("(A or B)" if (npat > 1 and not in_expr and tighter) else "A or B")
+                    if got is not want and got != want:
+                        out["grouping"].append(f"{case}: result {got!r} instead of {want!r}")
+    # grouping is required but the backend has no group template: an error, not an ungrouped OR
+    cond = _types.SimpleNamespace(field="fld", value=SigmaCIDRExpression("10.0.0.0/8", ["a*", "b*"]), source="src", parent_chain_condition_classes=lambda: [ConditionAND])
+    me = Proxy(prog, TQ, env, {"cidr_expression": None, "precedence": (ConditionNOT, ConditionAND, ConditionOR), "group_expression": None, "convert_condition": lambda c, st: "A or B",
+                               "decide_convert_condition_as_in_expression": lambda c, st: False, "escape_and_quote_field": lambda f_: f_}, interp_kwargs=IK)
+    try:
+        got = call_method(prog, TQ, "convert_condition_field_eq_val_cidr", me, env, cond, "state", interp_kwargs=IK)
+        out["grouping"].append(f"two patterns under AND on a backend without group template: result {got!r} instead of NotImplementedError")
+    except Raised as ex:
+        if "NotImplementedError" not in str(ex):
+            out["grouping"].append(f"two patterns under AND on a backend without group template: raises {ex}")
+    ctx._c18_cidr = out
+    return out
 
 
 def r3_native(ctx) -> None:
     r, prog = ctx.r, ctx.prog
     r.rule("C18.R3", "a backend with a native CIDR template receives the normalised network, network address, prefix length and netmask of the value; without one, every expanded pattern becomes one string match under an OR")
     f = prog.func("sigma.conversion.base.TextQueryBackend.convert_condition_field_eq_val_cidr")
-    calls = [c for c in walk_no_nested(f.node) if isinstance(c, ast.Call) and call_name(c) == "self.cidr_expression.format"]
-    if len(calls) != 1:
-        raise AnalysisError(f"{f.qual}: cidr_expression.format call not found")
-    kws = {k.arg: unparse(k.value) for k in calls[0].keywords}
-    defs = {n: [unparse(v) for v in assignments_to(f.node, n) if isinstance(v, ast.AST)] for n in ("cidr",)}
-    loc = f"{f.module.relpath}:{calls[0].lineno}"
-    want = {"value": "str(cidr.network)", "network": "cidr.network.network_address", "prefixlen": "cidr.network.prefixlen", "netmask": "cidr.network.netmask"}
-    for k, v in want.items():
-        if kws.get(k) == v:
-            r.ok("C18.R3", f.qual, f"{k}={v}", loc)
-        else:
-            r.violation("C18.R3", f.qual, f"{k}={kws.get(k)}", f"the native template must receive {k}={v} (normalised by ipaddress); the raw rule text such as '192.168.0.0/255.252.0.0' or '10.1.2.3' is not a normalised network", loc)
-    if kws.get("field") in ("cond.field", "self.escape_and_quote_field(cond.field)"):
-        r.ok("C18.R3", f.qual, f"field={kws.get('field')}", loc)
+    tbl = cidr_conversion_table(ctx)
+    if not tbl["native"]:
+        r.ok("C18.R3", f.qual, "native template receives value=str(network), network=network address, prefixlen, netmask of the normalised network and the condition's field (interpreted on a network written with a netmask)", f.loc)
     else:
-        r.violation("C18.R3", f.qual, f"field={kws.get('field')}", "field argument is not the condition's field", loc)
-    if defs["cidr"] == ["cond.value"]:
-        r.ok("C18.R3", f.qual, "cidr = cond.value", loc)
+        r.violation("C18.R3", f.qual, f"self.cidr_expression.format(...): {tbl['native'][0]}", "the native template must receive the network normalised by ipaddress (value, network address, prefix length, netmask); the raw rule text such as '192.168.0.0/255.252.0.0' or '10.1.2.3' is not a normalised network", f.loc)
+    if not tbl["expansion"]:
+        r.ok("C18.R3", f.qual, "non-native: OR over one field=SigmaString(pattern) per expanded pattern (48 interpreted cases)", f.loc)
     else:
-        r.violation("C18.R3", f.qual, f"cidr = {defs['cidr']}", "the CIDR object is not the condition's value", loc)
-    src = unparse(f.node)
-    if "expanded = cidr.expand()" in src and "ConditionOR([ConditionFieldEqualsValueExpression(cond.field, SigmaString(network)) for network in expanded]" in src and "self.convert_condition(expanded_cond, state)" in src:
-        r.ok("C18.R3", f.qual, "non-native: OR over one field=SigmaString(pattern) per expanded pattern", f.loc)
-    else:
-        r.violation("C18.R3", f.qual, "expanded_cond = ConditionOR([... for network in expanded])", "without native support every expanded pattern must become one string match, OR-linked", f.loc)
-    r.floor("C18.R3", 6)
+        r.violation("C18.R3", f.qual, f"expanded_cond = ConditionOR([... for network in expanded]): {tbl['expansion'][0]}", "without native support every expanded pattern must become one string match, OR-linked", f.loc)
+    r.floor("C18.R3", 2)
 
 
 def r4_validation(ctx) -> None:
@@ -258,18 +296,11 @@ def r5_expansion_table(ctx) -> None:
     skipped = False
     for cidr in EXPAND_SAMPLES:
         net = ipaddress.ip_network(cidr)
-        me = type("C", (), {})()
-        me.network, me.cidr = net, cidr
-        it = Interp({"self": me, "wildcard": "*", "IPv4Network": ipaddress.IPv4Network, "IPv6Network": ipaddress.IPv6Network}, max_steps=200000)
         try:
-            got = it.call(f.node.body)
+            got = expand_interpreted(ctx, net)
         except Raised as ex:
             bad.append((cidr, f"raises {ex}"))
             continue
-        except AnalysisError as ex:  # the interpreter cannot follow this body: no verdict from this rule (floor below)
-            r.note(f"C18.R5: expand() not interpreted for {cidr}: {ex}")
-            skipped = True
-            break
         want = _reference_expand(net)
         if list(got) != want:
             miss = [p_ for p_ in want if p_ not in got]
